@@ -140,13 +140,10 @@ theorem fullLoop_spec (dbg : Bool) (off : Nat) : ∀ (n k : Nat) (consumed : Lis
 theorem acc_result {off : Nat} {bytes : List Nat} {cs : Bitmap} {k : Nat} (h : Acc off bytes cs k) :
     Bitmap.WF cs ∧ ∀ x, x ∈ Bitmap.elems cs ↔ x ∈ Spec.bitsOfBytes off bytes := ⟨h.1, h.2.2⟩
 
-/-- inherent.rs:110-169: for a multiple-of-8 offset and a slice that ends at or before `2^32` *and is shorter than
-    `2^29` bytes* the aligned body does not panic and returns a well-formed bitmap holding exactly the SPEC set.
-    (A slice of exactly `2^29` bytes — only possible at offset 0 — overflows `len_bytes.checked_mul(8)` and hits
-    the `expect`; see `C17_full_slice_panics`.) -/
+/-- inherent.rs:110-169: for a multiple-of-8 offset and a slice that ends at or before `2^32` the aligned body
+    does not panic and returns a well-formed bitmap holding exactly the SPEC set. -/
 theorem fromLsb0Aligned_spec (dbg : Bool) (off : Nat) (bytes : List Nat) (hal : off % 8 = 0)
-    (hb : ∀ b ∈ bytes, b < 256) (hfit : off + 8 * bytes.length ≤ 4294967296)
-    (h8 : 8 * bytes.length < 4294967296) :
+    (hb : ∀ b ∈ bytes, b < 256) (hfit : off + 8 * bytes.length ≤ 4294967296) :
     ∃ b, fromLsb0Aligned dbg off bytes = some b ∧ Bitmap.WF b ∧
       ∀ x, x ∈ Bitmap.elems b ↔ x ∈ Spec.bitsOfBytes off bytes := by
   by_cases hne : bytes = []
@@ -158,8 +155,8 @@ theorem fromLsb0Aligned_spec (dbg : Bool) (off : Nat) (bytes : List Nat) (hal : 
       | nil => contradiction
       | cons _ _ => rfl
     unfold fromLsb0Aligned
-    simp only [he, Bool.false_eq_true, if_false, u32Max]
-    rw [if_neg (by omega), if_neg (by omega), if_neg (by omega)]
+    simp only [he, Bool.false_eq_true, if_false, u32Max, wMax]
+    rw [if_neg (by omega), if_neg (by omega), if_neg (by omega), if_neg (by omega)]
     -- the last piece (shared by all cases)
     have hlast : ∀ (cs : Bitmap) (consumed rest : List Nat), consumed ++ rest = bytes →
         Acc off consumed cs ((off + (bytes.length * 8 - 1)) / 65536) →
